@@ -16,8 +16,37 @@ Definition c_fuel (c : c15_case) : nat := N.to_nat (c_fuelN c).
 Definition obs_eqb (a b : obs float) : bool :=
   list_eqb float_same (o_vals a) (o_vals b) && ending_eqb (o_end a) (o_end b).
 
+(* the call with jitter switched off: its values are the un-jittered states *)
+Definition plain_params (p : params float) : params float :=
+  mkP (p_api p) (p_start p) (p_stop p) (p_count p) (p_factor p) PrimFloat.zero (p_take p).
+
+(* every observed value is the model's value at that position for SOME recorded draw *)
+Fixpoint jit_match (j : float) (draws bs vs : list float) : bool :=
+  match bs, vs with
+  | [], [] => true
+  | b :: bs', v :: vs' =>
+      existsb (fun r => float_same v (emit prim_ops true j b r)) draws && jit_match j draws bs' vs'
+  | _, _ => false
+  end.
+
+Definition draws_in_unit (draws : list float) : bool :=
+  forallb (fun r => PrimFloat.leb PrimFloat.zero r && PrimFloat.leb r PrimFloat.one) draws.
+
+(* agree: the observation is the model's run for the recorded draws taken in order (one per
+   value), or - when jitter is on and in range - for some assignment of recorded draws to the
+   values (an implementation may consume random.random() in another pattern, e.g. reuse a draw;
+   the theorems hold for every draw sequence in [0,1], so any assignment transfers them). *)
+Definition c15_agree (c : c15_case) : bool :=
+  let p := c_p c in
+  draws_in_unit (c_draws c) &&
+  (obs_eqb (run prim_ops p (c_fuel c) (c_draws c)) (c_obs c)
+   || (negb (jitter_off prim_ops (p_jitter p)) && jitter_valid prim_ops (p_jitter p) &&
+       let base := run prim_ops (plain_params p) (c_fuel c) [] in
+       ending_eqb (o_end base) (o_end (c_obs c)) &&
+       jit_match (p_jitter p) (c_draws c) (o_vals base) (o_vals (c_obs c)))).
+
 Definition c15_verdict (c : c15_case) : verdict :=
-  (obs_eqb (run prim_ops (c_p c) (c_fuel c) (c_draws c)) (c_obs c),
+  (c15_agree c,
    spec_holds prim_ops (c_p c) (c_obs c),
    spec_known prim_ops (c_p c) (c_fuel c)).
 
